@@ -168,11 +168,11 @@ REGISTRY["C09"] = {
 
 REGISTRY["C11"] = {
     "engine": "engine_alias",
-    "theorems": [(A + "Alias", "Api.Alias.C11_views"), (A + "Alias", "Api.Alias.C11_views_agree"), (A + "Alias", "Api.Alias.C11_dependentRequired_partial"),
+    "theorems": [(A + "Alias", "Api.Alias.C11_all_views"), (A + "Alias", "Api.Alias.C11_views"), (A + "Alias", "Api.Alias.C11_views_agree"), (A + "Alias", "Api.Alias.C11_dependentRequired_partial"),
                  (A + "Alias", "Api.Alias.C11_dependentRequired_counterexample"), (A + "Alias", "Api.Alias.C11_graphql_counterexample")],
     "model_is_spec": True,
-    "partial": "every view but dependentRequired lists exactly the external names (for every aliaser function); dependentRequired only when the dynamic "
-               "aliaser fixes the stored aliases (finding KF23); flattened objects and argument names are seen by the engine only",
+    "partial": "every view, dependentRequired included since the repair of row 23, lists exactly the external names (for every aliaser function); "
+               "flattened objects, discriminator keys and argument names are seen by the engines only",
     "assumptions": ["the model of a view is the string it feeds to its aliaser (`ObjectField.alias` or, with the defect of row 16, the field name); that each "
                     "real view reads that string is what the engine observes on generated classes"],
 }
